@@ -217,7 +217,8 @@ def main():
             osets = [o for o in osets if len(o) <= 2 or "reduce_affine_expression" in o or len(o) >= 6]
         items += [(mid, text, o) for o in osets]
     # extended classes: linked non-eliminable alias classes / alias cycles, equation orientations, badly scaled affine systems
-    ext = simpfam.models_ext(args.tier)
+    # + if-equations whose branches are pattern-matched shapes (same / different / non-matching variables per branch)
+    ext = simpfam.models_ext(args.tier) + simpfam.models_ext2(args.tier)
     for mid, text, osets in ext:
         items += [(mid, text, o) for o in osets]
     # chunk to amortise process start-up
